@@ -3,6 +3,7 @@ package main
 import (
 	"bytes"
 	"context"
+	"errors"
 	"fmt"
 	"io"
 	stdslog "log/slog"
@@ -282,6 +283,16 @@ func registerAll(cs []custLevel) error {
 	return nil
 }
 
+// c01sickW is a destination that takes half of what it is handed, silently or with an error.
+type c01sickW struct{ withErr bool }
+
+func (w c01sickW) Write(p []byte) (int, error) {
+	if w.withErr {
+		return len(p) / 2, errors.New("write: input/output error (injected)")
+	}
+	return len(p) / 2, nil
+}
+
 // c01table: one registry per case index (own child process, the registry cannot be reset).
 func c01table(c *Ctx) {
 	eps := entryPoints()
@@ -342,8 +353,22 @@ func c01table(c *Ctx) {
 				l.SetWriter(io.Discard).AddWriter(w1)
 				l.SetErrorWriter(io.Discard).AddErrorWriter(w2)
 				l.AddLevelWriter(slog.InfoLevel, io.Discard).AddLevelWriter(slog.InfoLevel, w3)
+			} else if idx%3 == 1 {
+				// every third registry: a SICK destination in front of the recording one in every class - it takes half of
+				// the payload and says nothing (odd loggers) or reports an error (even loggers); the recording destination
+				// behind it gets the admitted record all the same
+				sick := c01sickW{withErr: nRoots%2 == 0}
+				l.SetWriter(sick).AddWriter(w1)
+				l.SetErrorWriter(sick).AddErrorWriter(w2)
+				l.AddLevelWriter(slog.InfoLevel, sick).AddLevelWriter(slog.InfoLevel, w3)
 			} else {
 				l.SetWriter(w1).SetErrorWriter(w2).AddLevelWriter(slog.InfoLevel, w3)
+			}
+			if nRoots%2 == 1 {
+				// an optional destination that was not configured: a nil writer is ignored, the lists stay as they are
+				l.SetWriter(nil)
+				l.SetErrorWriter(nil)
+				l.AddWriter(nil)
 			}
 			// per-level writers that were added and removed again (for every second severity): an admitted record of
 			// such a severity still produces output
